@@ -51,8 +51,15 @@ func (c *ServerCookie) Decode(b []byte) error {
 	pos := 0
 	algo, s2c, c2s := false, false, false
 	for pos < len(b) {
+		rem := len(b) - pos - 4
+		if rem < 0 {
+			return errUnexpectedCookieData
+		}
 		t := binary.BigEndian.Uint16(b[pos:])
 		len := binary.BigEndian.Uint16(b[pos+2:])
+		if rem < int(len) || t == cookieTypeAlgorithm && len < 2 {
+			return errUnexpectedCookieData
+		}
 		if t == cookieTypeAlgorithm {
 			c.Algo = binary.BigEndian.Uint16(b[pos+4:])
 			algo = true
@@ -103,8 +110,15 @@ func (c *EncryptedServerCookie) Decode(b []byte) error {
 	pos := 0
 	id, nonce, ciphertext := false, false, false
 	for pos < len(b) {
+		rem := len(b) - pos - 4
+		if rem < 0 {
+			return errUnexpectedCookieData
+		}
 		t := binary.BigEndian.Uint16(b[pos:])
 		len := binary.BigEndian.Uint16(b[pos+2:])
+		if rem < int(len) || t == cookieTypeKeyID && len < 2 {
+			return errUnexpectedCookieData
+		}
 		if t == cookieTypeKeyID {
 			c.ID = binary.BigEndian.Uint16(b[pos+4:])
 			id = true
@@ -157,6 +171,10 @@ func (c *EncryptedServerCookie) Decrypt(key []byte) (ServerCookie, error) {
 	aessiv, err := miscreant.NewAEAD("AES-CMAC-SIV", key, 16)
 	if err != nil {
 		return ServerCookie{}, err
+	}
+
+	if len(c.Nonce) != aessiv.NonceSize() {
+		return ServerCookie{}, errUnexpectedCookieData
 	}
 
 	b, err := aessiv.Open(nil /* dst */, c.Nonce, c.Ciphertext, nil /* additionalData */)
